@@ -511,9 +511,6 @@ def brute_region(spec: dict, src_nids: list[int], inputs: list[int], outputs: li
             "in_view": all(n in src_nids for n in nodes)}
 
 
-_EVAL_CACHE: dict = {}
-
-
 def source_values(B: Built, feed_seed: int) -> dict | None:
     """All top-level values of the source graph under seeded feeds (onnx.reference)."""
     from onnx.reference import ReferenceEvaluator
@@ -595,11 +592,9 @@ def oracle_extract(spec: dict, B: Built, src: dict, inputs: list, outputs: list,
     if obs["shared_objects"]:
         bad.append(f"result shares {obs['shared_objects']} Graph/Node/Value objects with the source")
     if evaluate and spec["mode"] == "numeric" and not bad and "graph" in obs:
-        key = id(B)
-        if key not in _EVAL_CACHE:
-            _EVAL_CACHE.clear()
-            _EVAL_CACHE[key] = [source_values(B, s) for s in (1, 2)]
-        for sv in _EVAL_CACHE[key]:
+        if getattr(B, "_srcvals", None) is None:
+            B._srcvals = [source_values(B, s) for s in (1, 2)]
+        for sv in B._srcvals:
             try:
                 bad += eval_extracted(B, obs["graph"], sv, obs["in_strs"], obs["out_strs"])
             except Exception as e:  # noqa: BLE001
